@@ -151,7 +151,7 @@ func init() {
 		Case:        c14Case,
 		MinDistinct: func(t string) int { return 300 },
 		Floors: func(string) map[string]int64 {
-			return map[string]int64{"pairs": 800, "epsilon_matches_checked": 12000, "matches_at_target_end": 300, "matches_at_query_end": 300, "matches_with_errors": 3000, "self_comparison_pairs": 100, "diagonal_residues_covered": 20, "hits_reported": 1000}
+			return map[string]int64{"pairs": 800, "epsilon_matches_checked": 12000, "matches_at_target_end": 300, "matches_at_query_end": 300, "matches_with_errors": 3000, "self_comparison_pairs": 100, "diagonal_residues_covered": 20, "hits_reported": 1000, "ring_stress_pairs": 150}
 		},
 		Assumptions: []string{"sequences contain only A,C,G,T (the tube-recycling tick counts visited k-mer positions)", "epsilon-match = two length-n windows differing by at most e substitutions (no indels)", "complement-strand filtering is not exercised"},
 	})
@@ -176,8 +176,24 @@ func c14Case(r *obs.Run, i int) {
 	if rng.Intn(4) == 0 {
 		tl = maxInt(p.N+5, 100+rng.Intn(200))
 	}
+	// ring-stress family: errors allowed, small offsets (many recycling ticks), a short target whose length puts
+	// the last diagonal in the top part of its tube, a long query, old matches at the target end and k-mers of
+	// the target start sprinkled through the query: every slot of the circular tube list is reused many times
+	stress := idx%4 == 3 && !p.Self
+	if stress {
+		p.E = 1 + rng.Intn(3)
+		minN = p.K*(p.E+1) + rng.Intn(3)
+		p.N = minN + []int{0, 1, 3, 8}[rng.Intn(4)]
+		p.Offset = p.E + 1 + rng.Intn(12)
+		tl = maxInt(p.N+10, 80+rng.Intn(220))
+		tl += ((p.Offset-1-rng.Intn(p.E))-(tl-1)%p.Offset + p.Offset) % p.Offset // (tl-1)%offset in [offset-e, offset-1]
+		ql = minInt(maxLen, tl*(4+rng.Intn(6)))
+	}
 	T := c14Rand(rng, tl)
 	Q := c14Rand(rng, ql)
+	if stress {
+		r.Count("ring_stress_pairs", 1)
+	}
 	if p.Self {
 		Q = T
 		ql = tl
@@ -231,6 +247,19 @@ func c14Case(r *obs.Run, i int) {
 		w := c14Mutate(rng, T[t0:t0+p.N], mism)
 		copy(Q[q0:], w)
 		plants = append(plants, plant{t0, q0, mism})
+	}
+	if stress && tl >= p.N+p.K+p.E+2 && ql > 4*p.N {
+		// exact copies of the target end at several places of the query ...
+		for k := 0; k < 3+rng.Intn(4); k++ {
+			q0 := rng.Intn(ql - p.N + 1)
+			copy(Q[q0:], T[tl-p.N-rng.Intn(3):][:p.N])
+			plants = append(plants, plant{tl - p.N, q0, 0})
+		}
+		// ... and the first k-mers of the target at many places
+		for k := 0; k < ql/(p.Offset+p.E)+2; k++ {
+			q0 := rng.Intn(ql - p.K - p.E)
+			copy(Q[q0:], T[:p.K+rng.Intn(p.E+1)])
+		}
 	}
 	scratch := c11Scratch(r)
 	defer os.RemoveAll(scratch)
